@@ -105,7 +105,7 @@ def run (s0 : Rat) (ls : List Line) : Result :=
   if !(srcs.all (fun s => regular s.tbl s0)) then .fail "pole" else
   if (omegas ls).any (fun w => s0 * s0 + w * w == 0) then .fail "pole" else
   let S : GQ := GQ.ofRat s0
-  let trVal (s : Src) : Rat := sumK (s.decomp.tr.map (fun p => p.2 * XLof s.tbl s0 p.1))
+  let trVal (s : Src) : Rat := trPart (XLof s.tbl s0) s.decomp
   if hasIC ls then
     -- every source ↦ the transform of its whole value
     let lines := render ls (fun s => s!"delta {ratToStr (decompLap (XLof s.tbl s0) s0 s.decomp)}")
@@ -122,9 +122,8 @@ def run (s0 : Rat) (ls : List Line) : Result :=
       else .ok none
     let acR := ws.mapM (fun w =>
       (solveLines (.ac (GQ.ofRat w)) (render ls (fun s =>
-        match s.decomp.ac.find? (fun p => p.1 == w) with
-        | some p => s!"ac {ratToStr p.2.1},{ratToStr (-p.2.2)}"      -- a cos + b sin: phasor a − j b
-        | none => "ac 0"))).map (fun r => (w, r)))
+        let p := acPart s.decomp w                                 -- a cos + b sin: phasor a − j b
+        s!"ac {ratToStr p.1},{ratToStr (-p.2)}"))).map (fun r => (w, r)))
     match dcR, trR, acR with
     | .error m, _, _ => .fail s!"dc:{m}"
     | _, .error m, _ => .fail s!"transient:{m}"
